@@ -18,6 +18,31 @@ from vlib.common import NCPU, REPO, VERIF, sh
 
 PROP_FILE = "Properties_C07.v"
 F3_KEY = "evalcache-contempt:startpos:c50->c0"
+# EndGameEval::isBishopPawnDraw<false> (black = the side with only king, pawns and bishops) selects the
+# b/g-file masks `bFile`/`acFile` by (whiteBishop == darkBishop), which for black WITHOUT a bishop is the
+# b-file although the squares b7..d7 are taken on the g-file side: the g-file fortress (pawn g3 against
+# pawn g2, defending king f1..e2) is scored a draw with colours reversed only.
+BPD_FEN = "8/8/8/5k2/6p1/6p1/6P1/5K2 w - - 0 1"
+BPD_KEY = "endgame-isBishopPawnDraw-black-without-bishop:" + BPD_FEN.replace(" ", "_")
+
+
+def bpd_pattern(fen):
+    """necessary condition for the known isBishopPawnDraw asymmetry: one side has only king and pawns and
+    its pawn on (its own) g6 blocks an enemy pawn on g7 — in either colouring"""
+    rows = fen.split()[0].split("/")
+    b = {}
+    for r, row in enumerate(rows):
+        f = 0
+        for ch in row:
+            if ch.isdigit():
+                f += int(ch)
+            else:
+                b[(f, 7 - r)] = ch
+                f += 1
+    pcs = set(b.values())
+    black_strong = not (pcs & set("qrbn")) and b.get((6, 1)) == "P" and b.get((6, 2)) == "p"
+    white_strong = not (pcs & set("QRBN")) and b.get((6, 6)) == "p" and b.get((6, 5)) == "P"
+    return black_strong or white_strong
 
 FENS = [
     "rnbqkbnr/pppppppp/8/8/8/8/PPPPPPPP/RNBQKBNR w KQkq - 0 1",
@@ -239,6 +264,9 @@ def first_diff(h):
     return None
 
 
+BPD_ACTIVE = [False]     # set when the witness of the known isBishopPawnDraw asymmetry reproduces on this tree
+
+
 def spec_failures(h):
     """implementation vs specification inside one history: returns list of (kind, detail)"""
     out = []
@@ -252,10 +280,14 @@ def spec_failures(h):
             if v != vf:
                 out.append(("evalPos-differs-from-fresh-evaluator", t))
             if vf != vs:
-                out.append(("evalPos-not-colour-symmetric", t))
+                out.append(("evalPos-not-colour-symmetric" + ("-known-bishopPawnDraw" if BPD_ACTIVE[0] and bpd_pattern(fen) else ""), t))
             if vm != "-" and vf != vm:
                 out.append(("evalPos-not-mirror-symmetric", t))
     return out
+
+
+def real_failures(h):
+    return [x for x in spec_failures(h) if not x[0].endswith("-known-bishopPawnDraw")]
 
 
 def measure(ctx, h):
@@ -457,6 +489,15 @@ def run(ctx):
                 os.remove(p)
             except OSError:
                 pass
+
+    # known asymmetry of endGameEval.cpp: replay its witness first; positions of the same pattern found later
+    # by the random histories are attributed to it (counted), not reported again
+    rc, so, se = sh(hcmd(exes["material"], "hist", "derived"), input="H 0 %s\nQ\n" % BPD_FEN, timeout=120, check=True)
+    bq = [l.split() for l in so.split("\n") if l.startswith("T Q ")]
+    BPD_ACTIVE[0] = bool(bq) and bq[0][3] != bq[0][4]
+    ctx.notes["endgame_mirror_witness"] = {"position": BPD_FEN, "net": "material-2", "evalPos": bq[0][3] if bq else None,
+                                           "evalPos_of_colour_swapped_position": bq[0][4] if bq else None,
+                                           "asymmetric": BPD_ACTIVE[0]}
 
     # (4) correspond: histories
     rng = ctx.rng
@@ -689,6 +730,15 @@ def run(ctx):
 
     ctx.log("evaluation cache compared")
     # ---------- verdict ----------
+    nb = sum(1 for h, (kind, d) in specfails if kind.endswith("-known-bishopPawnDraw"))
+    ctx.count("colour_asymmetries_attributed_to_isBishopPawnDraw", nb)
+    specfails = [x for x in specfails if not x[1][0].endswith("-known-bishopPawnDraw")]
+    if BPD_ACTIVE[0]:
+        ctx.violation("evalPos is not colour-symmetric: EndGameEval::isBishopPawnDraw<false> (black without a bishop) uses the "
+                      "b-file masks with the g-file squares: %s evaluates to %s (material net) but its colour-swapped "
+                      "position 5k2/6p1/6P1/6P1/5K2/8/8/8 b - - 0 1 to %s" % (BPD_FEN, bq[0][3], bq[0][4]),
+                      {"failing_input": {"net": "material", "script": ["H 0 " + BPD_FEN, "Q"], "kind": "evalPos-not-colour-symmetric",
+                                         "trace_line": " ".join(bq[0])}}, key=BPD_KEY)
     if f3_real:
         ctx.violation("evalPos returns a value cached under a different contempt (eval cache key = historyHash only, "
                       "table outlives Evaluate::setWhiteContempt): start position, net 'zero': contempt 50 -> evalPos=%s, "
@@ -729,11 +779,11 @@ def run(ctx):
 
     def report_failing(k, script, replay):
         """shrink a history on which the implementation contradicts the specification, report it"""
-        small = shrink(lambda sx: impl_trace(k, sx), script, lambda x: bool(spec_failures(x)), budget=ctx.scale(60, 300))
+        small = shrink(lambda sx: impl_trace(k, sx), script, lambda x: bool(real_failures(x)), budget=ctx.scale(60, 300))
         hx = impl_trace(k, small)
-        sfs = spec_failures(hx)
+        sfs = real_failures(hx)
         if not sfs:
-            small, sfs = script, spec_failures(impl_trace(k, script))
+            small, sfs = script, real_failures(impl_trace(k, script))
         kind, detail = sfs[0]
         fen = detail.split(" ", 8)[-1] if detail.startswith("T Q") else detail.split(" ", 5)[-1]
         replay = dict(replay)
@@ -793,7 +843,7 @@ def run(ctx):
     found = None
     with ThreadPoolExecutor(max_workers=NCPU) as ex:
         for c, tr in zip(cand, ex.map(lambda c: impl_trace(c[0], c[1]), cand)):
-            if spec_failures(tr) and not found:
+            if real_failures(tr) and not found:
                 found = c
     ctx.count("finder_histories_vs_fresh_evaluator", len(cand))
     if found:
